@@ -422,6 +422,14 @@ impl Process {
         self.state_has_changed
     }
 
+    /// Returns true if the process has terminated and its final state has been
+    /// [taken](Self::take_state), that is, the parent has waited for it.
+    #[must_use]
+    pub(crate) fn has_been_reaped(&self) -> bool {
+        !self.state_has_changed
+            && matches!(self.state, ProcessState::Halted(result) if !result.is_stopped())
+    }
+
     /// Returns the process state and clears the
     /// [`state_has_changed`](Self::state_has_changed) flag.
     pub fn take_state(&mut self) -> ProcessState {
@@ -571,6 +579,11 @@ impl Process {
     /// process.
     #[must_use = "send SIGCHLD if process state has changed"]
     pub fn raise_signal(&mut self, signal: signal::Number) -> SignalResult {
+        // A signal has no effect on a process that has already terminated.
+        if matches!(self.state, ProcessState::Halted(result) if !result.is_stopped()) {
+            return SignalResult::default();
+        }
+
         let process_state_changed =
             signal == signal::SIGCONT && self.set_state(ProcessState::Running);
 
